@@ -60,6 +60,7 @@ def cluster_evidence(pid, tier, seed, res, model, new, known, wall, foc=None):
         "exhaustive_scope": "the TLC model configs listed under model_runs (bounded 2-voter instances of Raft.tla) were explored completely; the recorded real executions are a finite, seed-dependent sample",
         "spec_defects": model.get("spec_defects", []),
         "corpus_schedules": len(res.get("corpus", [])),
+        "spec_behaviours_replayed_on_impl": res.get("s1", {}),
         "determinism_diffs": res.get("det_diffs", 0),
         "cached_cluster_run": bool(res.get("cached")),
         "known_findings_hit": {k: len(v[1]) for k, v in known.items()},
